@@ -25,6 +25,7 @@ Decided clauses:
   R4.9 HMAC key preparation (RFC 2104): in crypto_auth_hmacsha256_init / _hmacsha512_init the block size B is the length of the
        ipad / opad block handed to the hash; the caller's key is hashed first exactly on the paths whose branch facts give
        keylen >= B + 1, and used directly only with keylen <= B (which also bounds the `pad[i] ^= key[i]` loop).
+  R4.12 the two Poly1305 update functions (donna, SSE2) have the same buffering skeleton (E7 sibling agreement).
   R4.11 blake2b_update compresses only under a strict `remaining > K` guard followed by `remaining -= K` (the last block is left
         to *_final).
   R4.10 HKDF-Expand chains each block to its predecessor (RFC 5869: T(i) = HMAC(PRK, T(i-1) || info || i)): wherever a block of the
@@ -173,6 +174,11 @@ def run(ctx, chk):
     hmac_key_rule(prog, chk)
     hkdf_chain_rule(prog, chk)
     last_block_rule(prog, chk)
+    # R4.12: "any split into chunks", on every backend: the buffering logic of the two Poly1305 update functions (portable donna,
+    # SSE2) is one algorithm written twice - when to keep bytes, when to absorb the buffer, what remains buffered. Their scalar
+    # control skeletons (every branch condition, role-normalised) must be the same set (E7). A condition changed in one of them
+    # (returning with a full buffer, absorbing a partial one) changes the tag for some chunkings on that backend only.
+    poly1305_sibling_rule(prog, chk)
 
 
 BLAKE2B_VECTOR = ("blake2b_compress_ssse3", "blake2b_compress_sse41", "blake2b_compress_avx2")
@@ -290,6 +296,56 @@ def _phi_is_last_block(fn, call_iid):
         else:
             leaves.add(_ptr_key(fn, o))
     return bool(seen) and bool(leaves) and leaves <= finals
+
+
+def poly1305_sibling_rule(prog, chk):
+    """R4.12 (E7). The block size differs between the siblings (16 / 32 bytes): it is read from the call that absorbs the buffer,
+    poly1305_blocks(st, st->buffer, B), and B, B - 1 and ~(B - 1) are renamed before the skeletons are compared; so are the offsets of
+    the state fields (ordinal position among the fields the function touches)."""
+    import re as _re
+    sets, fns = {}, {}
+    for usub in ("poly1305/donna/", "poly1305/sse2/"):
+        cands = [f for f in prog.functions() if not f.decl and f.sname == "poly1305_update" and usub in f.unit]
+        if not cands:
+            continue
+        fn = cands[0]
+        S = {}
+        for p in cm.paths(prog, fn):
+            sh = cm.Shaper(prog, p, {0: "ST", 1: "M", 2: "BYTES"})
+            for e in p.events:
+                if e.kind == "fact" or (e.kind == "call" and (e.callee_name() or "") == "poly1305_blocks"):
+                    S.setdefault(str(sh.event(e)), (fn, e.iid))
+        B = None
+        for k in S:
+            m = _re.match(r"\('call', 'poly1305_blocks', \('ST', .*'ST'.*, \('c', (\d+)\)\)\)$", k)
+            if m:
+                B = int(m.group(1))
+        if B is None:
+            raise AnalysisBroken("R4.12: %s: no poly1305_blocks(st, st->buffer, <constant>) call: block size not found" % fn.unit)
+        N = {}
+        offs = sorted({int(x) for k in S for x in _re.findall(r"'ST', (\d+),", k)})
+        for k, v in S.items():
+            k = _re.sub(r"'ST', (\d+),", lambda m: "'ST', field#%d," % offs.index(int(m.group(1))), k)   # state layouts differ
+            k2 = k.replace("('c', %d)" % B, "BLOCK").replace("('c', %d)" % (B - 1), "BLOCK-1").replace("('c', %d)" % ((1 << 64) - B), "~(BLOCK-1)")
+            N.setdefault(k2, v)
+        sets[usub] = N
+        fns[usub] = fn
+    if len(sets) < 2:
+        if chk.relaxed or prog.config != "native":
+            return
+        raise AnalysisBroken("R4.12: fewer than two Poly1305 update siblings")
+    ref_name = next(iter(sets))
+    ref = sets[ref_name]
+    for nm, S in sets.items():
+        only = sorted(set(S) - set(ref))
+        missing = sorted(set(ref) - set(S))
+        ok = not only and not missing
+        where = S[only[0]] if only else (ref[missing[0]] if missing else None)
+        chk.ob("R4.12", fns[nm], "buffering skeleton of poly1305_update (%d shapes, block size renamed) equals that of the %s sibling" % (len(S), ref_name), ok,
+               loc=where[0].loc(where[1]) if where else None,
+               detail="" if ok else "only here: %s | only in %s: %s" % ([x[:260] for x in only[:1]], ref_name, [x[:260] for x in missing[:1]]),
+               key="R4.12 %s" % nm)
+    chk.floor("R4.12", "skeleton shapes of poly1305_update", len(ref), 6)
 
 
 def last_block_rule(prog, chk):
